@@ -1,7 +1,7 @@
 (* C05  A corrupted frame is rejected or decoded as what it actually says — engine half, for every input. *)
 From Coq Require Import ZArith List Bool.
 Require Import PyIR.Base.Result PyIR.IW.IW PyIR.Engine.Match PyIR.Engine.Render PyIR.Engine.Parse
-               PyIR.Engine.ParseProps PyIR.Engine.RoundTripH PyIR.Engine.Tolerance.
+               PyIR.Engine.ParseProps PyIR.Engine.RoundTripH PyIR.Engine.Tolerance PyIR.Engine.ParseM PyIR.Engine.ParseMProps.
 Import ListNotations.
 Open Scope Z_scope.
 
@@ -16,4 +16,16 @@ Theorem C05_parse_sound : forall tol li lo t ds p, parseH tol li lo t ds = Ok p 
     p_bits p = bits_of t (p_syms p).
 Proof. exact parseH_sound. Qed.
 
+(* Manchester data loop: every consumed duration lies in the window of one half or of two merged equal halves of the
+   first table entry, and the halves read are exactly the rendering of the returned symbols *)
+Theorem C05_parse_sound_manchester : forall tol li lo t ds p, parseM tol li lo t ds = Ok p ->
+  exists m s t' data halves extra,
+    t = (m, s) :: t' /\
+    halves_read tol m s data halves /\
+    render_data t (p_syms p) = halves ++ extra /\
+    Forall (fun i => (i < length t)%nat) (p_syms p) /\
+    p_bits p = flat_map (sym_to_bits (length t)) (p_syms p).
+Proof. exact parseM_sound. Qed.
+
 Print Assumptions C05_parse_sound.
+Print Assumptions C05_parse_sound_manchester.
